@@ -421,6 +421,14 @@ class Fn:
             tgt0 = s.targets[0] if isinstance(s, ast.Assign) and len(s.targets) == 1 else getattr(s, "target", None)
             if dotted(tgt0) in self.spec.get("ignore_assign", ()):
                 return self.block(rest, rest_value, in_loop)
+        rc = self.spec.get("raising_calls", {})
+        if rc and isinstance(s, (ast.Assign, ast.AnnAssign)) and isinstance(getattr(s, "value", None), ast.Call) and dotted(s.value.func) in rc:
+            # x = f(...) where f may raise: bind its result
+            tgt = s.targets[0] if isinstance(s, ast.Assign) and len(s.targets) == 1 else getattr(s, "target", None)
+            if not isinstance(tgt, ast.Name) or self.ret_mode != "except": raise Unsupported("a raising call outside an assignment to a name")
+            call = self.fill(rc[dotted(s.value.func)], None, s.value.args, {k.arg: k.value for k in s.value.keywords})
+            self.locals.add(tgt.id)
+            return "(Except.bind %s (fun %s =>\n %s))" % (call, self.ident(tgt.id), self.block(rest, rest_value, in_loop))
         m = self.mutation(s)
         if m is not None:
             var, val, raising = m
@@ -459,6 +467,34 @@ class Fn:
             n = self.ident(s.target.id)
             if s.target.id not in self.locals: raise Unsupported("augmented assignment to unbound %s" % n)
             return "(let %s := (%s %s %s)\n %s)" % (n, n, ops[type(s.op)], self.expr(s.value), self.block(rest, rest_value, in_loop))
+        rc = self.spec.get("raising_calls", {})
+        if rc and isinstance(s, ast.If):
+            # `if a and b and g(f(x)) and c:` where f may raise: a and b are tested first (short circuit), then f is evaluated and
+            # its result bound, then the remaining conjuncts
+            vals = s.test.values if isinstance(s.test, ast.BoolOp) and isinstance(s.test.op, ast.And) else [s.test]
+            hits = [(i, n) for i, v in enumerate(vals) for n in ast.walk(v) if isinstance(n, ast.Call) and dotted(n.func) in rc]
+            if hits:
+                if self.ret_mode != "except": raise Unsupported("a raising call in a function bound as total")
+                if len(hits) != 1: raise Unsupported("two raising calls in one condition")
+                idx, c = hits[0]
+                bound = self.fill(rc[dotted(c.func)], None, c.args, {k.arg: k.value for k in c.keywords})
+                target = ast.dump(c)
+
+                class Sub(ast.NodeTransformer):
+                    def visit_Call(self, node):
+                        if ast.dump(node) == target: return ast.copy_location(ast.Name(id="py_r", ctx=ast.Load()), node)
+                        return self.generic_visit(node)
+                import copy as _copy
+                newval = Sub().visit(_copy.deepcopy(vals[idx]))
+                saved = set(self.locals)
+                o = self.block(s.orelse + rest, rest_value, in_loop)
+                self.locals = set(saved); self.locals.add("py_r")
+                inner_cond = " ∧ ".join([self.cond(newval)] + [self.cond(v) for v in vals[idx + 1:]])
+                b = self.block(s.body + rest, rest_value, in_loop)
+                self.locals = set(saved)
+                inner = "(Except.bind %s (fun py_r =>\n (if %s then\n %s\n else\n %s)))" % (bound, inner_cond, b, o)
+                if idx == 0: return inner
+                return "(if %s then\n %s\n else\n %s)" % (" ∧ ".join(self.cond(v) for v in vals[:idx]), inner, o)
         if isinstance(s, ast.If) and isinstance(s.test, ast.Call) and dotted(s.test.func) in self.spec.get("raising_conditions", {}):
             # `if f(...):` where f may raise: evaluate it first, then branch on the value
             if self.ret_mode != "except": raise Unsupported("a raising call in a function bound as total")
